@@ -67,7 +67,7 @@ func validateInvoiceCustomer(val any) error {
 
 func validateInvoiceTax(val any) error {
 	t, ok := val.(*bill.Tax)
-	if !ok {
+	if !ok || t == nil {
 		return nil
 	}
 	return validation.ValidateStruct(t,
@@ -83,7 +83,7 @@ func validateInvoiceTax(val any) error {
 
 func validateInvoicePreceding(val any) error {
 	p, ok := val.(*org.DocumentRef)
-	if !ok {
+	if !ok || p == nil {
 		return nil
 	}
 	return validation.ValidateStruct(p,
